@@ -50,12 +50,13 @@ theorem drop_terminates_without_error {α : Type} [DecidableEq α] (sem : Sem α
 /-- **Key lemma: the strong edges that `dissolve_paths` does not cut are well-founded** — for every
     description of the repaired code, every ordinary field edge into a `good` node goes strictly up
     in `rank`, comes from a `good` node, and removable timer entries never point to `good` nodes. -/
-theorem strong_edges_ranked (d : Desc) (hk : d.keepChan = false) (ht : d.taskCtx = false) :
+theorem strong_edges_ranked (d : Desc) (hk : d.keepChan = false) (ht : d.taskCtx = false)
+    (hpc : d.parentCache = false) :
     ∀ e ∈ mkEdges d, good e.tgt = true →
       good e.src = true ∧ (e.via = Via.field → rank d e.src < rank d e.tgt) ∧
         ∀ h, e.via ≠ Via.entry h := by
   intro e he hg
-  have hR := List.all_eq_true.mp (local_mkEdges d hk ht) e he
+  have hR := List.all_eq_true.mp (local_mkEdges d hk ht hpc) e he
   simp only [localOk, Bool.and_eq_true, Bool.or_eq_true, Bool.not_eq_true', hg] at hR
   refine ⟨?_, ?_, ?_⟩
   · rcases hR.1 with h | h
@@ -108,14 +109,14 @@ theorem plain_frees_below_gates (d : Desc) :
     wiring (rings included), any channel backlog, any pending / remaining / buffered events, any
     blocked tasks, shut-down modules, messages kept in module state. -/
 theorem all_good_nodes_freed_once (d : Desc) (hk : d.keepChan = false) (hh : d.hookGlobals = false)
-    (ht : d.taskCtx = false) :
+    (ht : d.taskCtx = false) (hpc : d.parentCache = false) :
     (dropSim d).err = none ∧
       ∀ v ∈ nodesOf d, good v = true → freedCount (dropSim d) v = 1 := by
   have hheap : heapEdges d = mkEdges d := by simp [heapEdges, hookEdges, hh]
   unfold dropSim nodesOf
   rw [hheap]
   have h := dropRoots_ranked nidSem (mkEdges d) roots (fun v => good v = true) (rank d)
-    (ranked_of_wired d hk ht (wired_all d))
+    (ranked_of_wired d hk ht hpc (wired_all d))
   refine ⟨h.1, ?_⟩
   intro v hv hg
   refine h.2 v hg ?_
@@ -133,9 +134,9 @@ theorem all_good_nodes_freed_once (d : Desc) (hk : d.keepChan = false) (hh : d.h
     probe) is
     dropped exactly once and none stays alive.** -/
 theorem all_user_objects_freed_once (d : Desc) (hk : d.keepChan = false) (hh : d.hookGlobals = false)
-    (ht : d.taskCtx = false) :
+    (ht : d.taskCtx = false) (hpc : d.parentCache = false) :
     (dropSim d).err = none ∧ leaked d = [] := by
-  have h := all_good_nodes_freed_once d hk hh ht
+  have h := all_good_nodes_freed_once d hk hh ht hpc
   refine ⟨h.1, ?_⟩
   unfold leaked
   simp only
@@ -154,7 +155,7 @@ theorem all_user_objects_freed_once (d : Desc) (hk : d.keepChan = false) (hh : d
 
 /-- a.out –ch(Queue)→ b.in, one packet waiting in the channel, the unbusy notification pending -/
 def backlog (keep : Bool) : Desc :=
-  { mods := [⟨none, 0, false, [], 0, [], none⟩, ⟨none, 0, false, [], 0, [], none⟩]
+  { mods := [⟨none, 0, false, [], 0, [], none, false⟩, ⟨none, 0, false, [], 0, [], none, false⟩]
     gates := [0, 1]
     links := [⟨0, 1, true, [⟨true, some 1⟩], []⟩]
     fes := [.unbusy 0 true], rem := [], buf := [], keepChan := keep }
@@ -170,8 +171,8 @@ example : leaked (backlog false) = [] := by decide +kernel
 
 /-- one module with a task blocked on `sleep` (one pending timer slot), a gate ring m0–m1–m2 -/
 def sleeper : Desc :=
-  { mods := [⟨none, 1, true, [⟨.sleep 0, false⟩], 1, [], none⟩, ⟨some 0, 0, false, [], 0, [], none⟩,
-             ⟨some 0, 0, true, [⟨.recv true, true⟩], 0, [⟨true, some 0⟩], none⟩]
+  { mods := [⟨none, 1, true, [⟨.sleep 0, false⟩], 1, [], none, false⟩, ⟨some 0, 0, false, [], 0, [], none, false⟩,
+             ⟨some 0, 0, true, [⟨.recv true, true⟩], 0, [⟨true, some 0⟩], none, false⟩]
     gates := [0, 1, 2]
     links := [⟨0, 1, false, [], []⟩, ⟨1, 2, false, [], []⟩, ⟨2, 0, false, [], []⟩]
     fes := [.wakeup 0], rem := [.handle 1 ⟨true, none⟩], buf := [] }
@@ -187,7 +188,7 @@ example : sleeper.keepChan = false ∧ leaked sleeper = [] := by decide +kernel
 
 /-- one started module, stepped and dropped without `finish()` -/
 def stepped (hook : Bool) : Desc :=
-  { mods := [⟨none, 1, true, [⟨.sleep 0, false⟩], 1, [], none⟩], gates := [], links := []
+  { mods := [⟨none, 1, true, [⟨.sleep 0, false⟩], 1, [], none, false⟩], gates := [], links := []
     fes := [.wakeup 0], rem := [], buf := [], stop := .stepped, hookGlobals := hook }
 
 /-- **A panic hook that captures `Arc<Globals>` keeps the module tree alive** when the simulation is
@@ -201,8 +202,8 @@ example : leaked (stepped false) = [] := by decide +kernel
 /-- an `AsyncFn` module whose task is blocked in `rx.recv()`, holding one message, one more waiting in
     its channel; a gate with a channel (and its probe) -/
 def asyncFn (ctxBack : Bool) : Desc :=
-  { mods := [⟨none, 0, true, [], 0, [], some ⟨true, none, [⟨true, none⟩], [⟨true, none⟩]⟩⟩,
-             ⟨none, 0, false, [], 0, [], none⟩]
+  { mods := [⟨none, 0, true, [], 0, [], some ⟨true, none, [⟨true, none⟩], [⟨true, none⟩]⟩, false⟩,
+             ⟨none, 0, false, [], 0, [], none, false⟩]
     gates := [0, 1], links := [⟨0, 1, true, [], []⟩]
     fes := [], rem := [], buf := [], taskCtx := ctxBack }
 
@@ -215,5 +216,20 @@ theorem task_captures_ctx_witness :
   decide +kernel
 
 example : leaked (asyncFn false) = [] := by decide +kernel
+
+/-- a parent with one child that looked its parent up; the child has a processing element and a task -/
+def family (cache : Bool) : Desc :=
+  { mods := [⟨none, 1, true, [], 0, [], none, false⟩,
+             ⟨some 0, 1, true, [⟨.sleep 0, false⟩], 1, [], none, true⟩]
+    gates := [], links := [], fes := [], rem := [], buf := [], parentCache := cache }
+
+/-- **A cached strong parent handle makes parent and child keep each other alive** (seeded variant of
+    `ModuleContext::parent()`, not the current code): the parent owns the child through `children`, the
+    child owns the parent through the cache; neither state, elements nor tasks are released. -/
+theorem parent_cache_witness :
+    leaked (family true) = [.state 0, .pe 0 0, .state 1, .pe 1 0, .taskState 1 0] := by
+  decide +kernel
+
+example : leaked (family false) = [] := by decide +kernel
 
 end C20
